@@ -28,6 +28,9 @@ def skeletons(T: str, U: str):
         {"<start>": ["<a>" + T + "<a>"], "<a>": [U, "y"]},
         {"<start>": ["<a><b>"], "<a>": [T, T + U], "<b>": ["", U + "<a>"]} if False else
         {"<start>": ["<a><b>"], "<a>": [T, T + U], "<b>": ["", U]},
+        # terminals that look almost like a nonterminal: '<' ... '>' with a blank inside
+        {"<start>": ["< " + T + "><a>"], "<a>": ["x", "<" + U + " >"]},
+        {"<start>": ["<a><!-- " + T + " -->"], "<a>": ["y"]},
     ]
 
 
